@@ -73,7 +73,14 @@ def cases(draw, switches):
         g.num_arrays.setdefault("P", [10])
         g.used.add(("na", "P"))
     elif ctx == "on":
-        sel = ["bin", "AND", ["par", g.integer(min(depth, 3))], ["num", "3", 3]]
+        inner = g.integer(min(depth, 3))
+        if draw(st.booleans()):
+            # a selector that needs a procedure call and reads a variable
+            v = draw(st.sampled_from(g.int_vars))
+            g.used.add(("n", v))
+            g.n_conv += 1
+            inner = ["fn", "INT", [["bin", "+", ["var", v], ["bin", "*", inner, ["num", "0", 0]]]]]
+        sel = ["bin", "AND", ["par", inner], ["num", "3", 3]]
         body.append(["on", sel, draw(st.sampled_from(["GOTO", "GOSUB"])), [100, 110, 120]])
         extra_lines = [[100, [["let", ["var", "Z9"], ["num", "5", 5], False], ["goto", 40]]],
                        [110, [["let", ["var", "Z9"], ["num", "6", 6], False], ["goto", 40]]],
@@ -94,6 +101,17 @@ def cases(draw, switches):
     prog = [[10, init]]
     if corners:
         prog.append([20, corners])
+    if draw(st.booleans()) and ctx not in ("for",):
+        # a statement that changes an operand sits immediately before the carrying statement (same line or the line before):
+        # anything computed too early, or attached to the wrong statement, becomes visible
+        used_n = sorted(v for k, v in g.used if k == "n")
+        if used_n:
+            v = draw(st.sampled_from(used_n))
+            pre = ["let", ["var", v], ["bin", "+", ["var", v], ["num", "1", 1]], False]
+            if draw(st.booleans()):
+                body = [pre] + body
+            else:
+                prog.append([25, [pre]])
     prog.append([30, body])
     # epilogue: print everything observable
     ep = []
@@ -123,7 +141,7 @@ def cases(draw, switches):
     prog.append([90, [["end"]]])
     prog += extra_lines
     nontrivial = len(g.precs) >= 2 or g.nested_fn or g.odd_spelling
-    classes = ["ctx_" + ctx]
+    classes = ["ctx_" + ctx] + (["operand_modified_just_before"] if any(l[0] == 25 for l in prog) or (body and body[0][0] == "let" and len(body) > 1 and ctx not in ("for",)) else [])
     if g.n_conv:
         classes.append("has_convertible_fn")
     if g.nested_fn:
@@ -223,9 +241,10 @@ def enumerate_trees(part, nparts, switches=frozenset()):
                 if _has_chained_pow(e):
                     stats.excluded["chained_power_U1"] += 1
                     continue
-                for vec in vectors:
+                for vec, wrap in ((vectors[0], None), (vectors[1], None), (vectors[0], "ABS")):
                     init = [["let", ["var", v], cbgen.lit_expr(x), False] for v, x in vec.items()]
-                    prog = [[10, init], [30, [["let", ["var", "X"], e, False]]], [40, [["print", [["e", ["var", "X"]]]]]]]
+                    rhs = e if wrap is None else ["bin", "+", ["fn", wrap, [e]], ["num", "1", 1]]
+                    prog = [[10, init], [30, [["let", ["var", "X"], rhs, False]]], [40, [["print", [["e", ["var", "X"]]]]]]]
                     case = {"prog": prog, "paren_unary": "paren_unary" in switches}
                     try:
                         check_case(case)
@@ -233,7 +252,7 @@ def enumerate_trees(part, nparts, switches=frozenset()):
                         stats.fail(v.detail, v.case)
                         return stats
                     triv = case.get("_trivial")
-                    stats.case(key=[e, vec], nontrivial=(n >= 2 and not triv), classes=["enumerated_tree_%d_ops" % n] + (["trivial_" + triv.split(":")[0]] if triv else []),
+                    stats.case(key=[e, vec, wrap], nontrivial=(n >= 2 and not triv), classes=["enumerated_tree_%d_ops" % n] + (["trivial_" + triv.split(":")[0]] if triv else []),
                                sample={"source": case.get("_source", "").split("\n")[1] if case.get("_source") else ""})
     stats.exhaustive = True
     return stats
